@@ -43,7 +43,7 @@ func drawBlockingStack(t *Tape, kinds []string) StackCfg {
 		c.Deadline = []time.Duration{time.Hour, 5 * time.Second}[t.Intn(2, "deadline")]
 	case "queue":
 		c.Ordering = []string{"lifo", "fifo", ""}[t.Intn(3, "ordering")]
-		c.Timeout = []time.Duration{time.Second, time.Hour, 10 * time.Millisecond}[t.Intn(3, "timeout")]
+		c.Timeout = []time.Duration{time.Second, time.Hour, 10 * time.Millisecond, -1}[t.Intn(4, "timeout")] // negative: no backlog timeout at all
 		c.Evict = t.Intn(2, "evict") == 1
 	case "fixedpool", "pool":
 		c.Ordering = []string{"random", "fifo", "lifo"}[t.Intn(3, "ordering")]
